@@ -46,4 +46,15 @@ theorem document_roundtrip (skip : List Str) (d : Doc)
   · intro ts hts; rw [ht] at hts; cases hts; exact henv
   · intro ts hts; rw [ht] at hts; cases hts; exact hadj
 
+/-- **Meaning of a certificate** (driver request `cert`): if the candidate document `d` found
+for the source `s` reproduces the tokens of `s` and is well-formed – two Boolean checks evaluated
+by the compiled definitions – then `parse` returns exactly `treeD d` on `s`, in both tolerance
+modes. Nothing is assumed about how `d` was found. -/
+theorem cert_sound (tol : Bool) (skip : List Str) (s : Str) (ts : List Tok) (d : Doc)
+    (ht : tokenize s = some ts) (htoks : (toksD d == ts) = true)
+    (hwf : WFD (Tables.skipEnvNames ++ skip) d = true) :
+    parse tol skip s = .ok (treeD d) := by
+  have h : toksD d = ts := eq_of_beq htoks
+  exact parse_complete tol skip s d (by rw [h]; exact ht) hwf
+
 end TexSoup.C02
